@@ -33,6 +33,13 @@ def specs(shape):
     out = []
     for m, md in enumerate(shape["methods"]):
         t = md["t"]
+        if isinstance(t, list):
+            # two dispatched positions
+            k = md["kind"]
+            body = {"ret": f"return {m}", "next": f"return ({m}, call_next(x, y))",
+                    "trynext": f"try:\n    return ({m}, call_next(x, y))\nexcept TypeError as e:\n    return ({m}, str(e)[:9])"}[k]
+            out.append(dict(pos=[("x", ("obj",) if t[0] == n else ("K", t[0]), False), ("y", ("obj",) if t[1] == n else ("K", t[1]), False)], body=body))
+            continue
         term = ("obj",) if t == n else ("K", t)
         if md.get("dep") is not None:
             term = ("Dep", term, md["dep"])
@@ -65,6 +72,7 @@ def make_run(W, shape, known_active=None):
         ms = _MS[key] = MethodSet(specs(shape))
     has_dep = any(md.get("dep") is not None for md in methods)
     CH = [0, 1, n]  # argument classes offered to the selector: K0, K1, plain object()
+    two = isinstance(methods[0]["t"], list)
 
     def run(ctx):
         def mk():
@@ -94,15 +102,25 @@ def make_run(W, shape, known_active=None):
             if i < 2:
                 c = CH[ctx.choose(f"c{i}", 3)]
                 flag = bool(ctx.choose(f"flag{i}", 2)) if has_dep and c != n else False
+                if two:
+                    flag = CH[ctx.choose(f"d{i}", 3)]     # (second position's class, carried in the flag slot)
                 picks.append((c, flag))
             else:  # later calls repeat earlier ones: they must be answered from the cache exactly alike
                 c, flag = picks[i % 2]
-            a1 = arg(c, flag)
-            o_shared = full_outcome(lambda: shared.dispatch(a1), LOGs)
+            if two:
+                a1 = (arg(c, False), arg(flag, False))
+                o_shared = full_outcome(lambda: shared.dispatch(*a1), LOGs)
+            else:
+                a1 = arg(c, flag)
+                o_shared = full_outcome(lambda: shared.dispatch(a1), LOGs)
             if (c, flag) not in freshc:  # reference: first call ever on a brand-new function (same model)
                 fresh, LOGf = mk()
-                a2 = arg(c, flag)
-                freshc[(c, flag)] = full_outcome(lambda: fresh.dispatch(a2), LOGf)
+                if two:
+                    a2 = (arg(c, False), arg(flag, False))
+                    freshc[(c, flag)] = full_outcome(lambda: fresh.dispatch(*a2), LOGf)
+                else:
+                    a2 = arg(c, flag)
+                    freshc[(c, flag)] = full_outcome(lambda: fresh.dispatch(a2), LOGf)
             o_fresh = freshc[(c, flag)]
             hist.append(dict(cls=c, flag=flag, shared=o_shared, fresh=o_fresh))
             if o_shared != o_fresh:
@@ -139,13 +157,19 @@ def gen_shapes(tier, seed):
                 continue
             for ks in (("ret",) * 3, ("next", "ret", "ret"), ("trynext", "next", "ret"), ("next", "next", "next")):
                 dep.append(dict(n=n, L=4, methods=[dict(t=t, kind=k, dep=d) for t, k, d in zip(mt, ks, dm)]))
-    total = len(shapes) + len(fw) + len(dep)
+    two = []
+    pool2 = list(itertools.product(range(n + 1), repeat=2))
+    for _ in range(2000):
+        mt = [list(rng.choice(pool2)) for _ in range(rng.choice((1, 2, 3)))]
+        ks = [rng.choice(("ret", "ret", "next", "trynext")) for _ in mt]
+        two.append(dict(n=n, L=4, methods=[dict(t=t, kind=k) for t, k in zip(mt, ks)]))
+    total = len(shapes) + len(fw) + len(dep) + len(two)
     for f in (shapes, fw, dep):
         rng.shuffle(f)
     if tier == "quick":
-        out = shapes[:40] + fw[:30] + dep[:40]
+        out = shapes[:25] + fw[:20] + dep[:25] + two[:30]
     else:
-        out = shapes[:900] + fw[:700] + dep[:900]
+        out = shapes[:900] + fw[:700] + dep[:900] + two[:1200]
     return out, total, True
 
 
@@ -166,7 +190,7 @@ def main(tier, seed):
     results = runner.pmap("props.c04", "explore_shape", shapes, kw, chunksize=1)
     return runner.finish(
         PID, tier, seed, t0, results,
-        bounds=dict(classes=3, methods=3, positions=1, history_length="4 calls: two solver-chosen calls, then both repeated",
+        bounds=dict(classes=3, methods="3 (1-3 in the two-position family)", positions="1 (2 in the two-position family)", history_length="4 calls: two solver-chosen calls, then both repeated",
                     call_arguments="instance of K0 / K1 / a plain object(), chosen per call by a solver selector (K2 only as a method type); "
                                    "value-dependent flag per call (solver selector)",
                     bodies="return | call_next(x) | try call_next(x) except TypeError | call_next(other) | recurse(other); "
